@@ -820,6 +820,25 @@ func (ex *Exec) evalExternal(st *State, obj *types.Func, sel *ast.SelectorExpr, 
 		}
 		return tv(ex.define("le", sum), gt)
 	}
+	if obj.Pkg().Path() == "math" {
+		// any other math function: a deterministic uninterpreted function of its arguments (A-MATH)
+		sig := obj.Type().(*types.Signature)
+		if sig.Results().Len() == 1 {
+			var ts []*Term
+			for _, a := range e.Args {
+				v := ex.eval(st, a)
+				if isFloat(ex.info.TypeOf(a)) {
+					v = ex.coerceNum(v, SReal)
+				}
+				ts = append(ts, v.T)
+			}
+			rt := sig.Results().At(0).Type()
+			ex.notes = append(ex.notes, where+": math."+obj.Name()+" modelled as an uninterpreted deterministic function (A-MATH)")
+			r := tv(mk("ext_math_"+obj.Name(), ex.w.sortOf(rt), ts...), rt)
+			r.Inexact = true
+			return r
+		}
+	}
 	panic(unsupported("external call " + full + " at " + where))
 }
 
@@ -1065,10 +1084,14 @@ func (ex *Exec) callbackCall(st *State, cb *Val, e *ast.CallExpr) *Val {
 			idxPos = i
 		}
 	}
-	if idxPos < 0 {
-		panic("iter protocol needs the index itself among args")
+	var idx *Val
+	if idxPos >= 0 {
+		idx = args[idxPos]
+	} else if ip.At != nil {
+		idx = ex.specVal(st, ip.At, nil)
+	} else {
+		panic("iter protocol needs the index itself among args, or an `at <expr>` part giving the ghost index at the call site")
 	}
-	idx := args[idxPos]
 	pextra := map[string]*Val{ip.IdxVar: idx}
 	for obj, v := range ex.entry.vars {
 		if _, isParam := obj.(*types.Var); isParam {
